@@ -92,6 +92,9 @@ class DynamicSchedulePass( BasePass ):
 
     constraint_objs = top._dag.constraint_objs
     onces = top.get_all_update_once()
+    # A block wrapped by WrapGreenletPass stands for its original
+    unwrapped = { w: b for b, w in getattr( top._dag, 'blk_greenlet_mapping', {} ).items() }
+    onces = onces | { w for w, b in unwrapped.items() if b in onces }
 
     # Put the graph schedule to _sched
     top._sched.update_schedule = schedule = []
@@ -118,7 +121,7 @@ class DynamicSchedulePass( BasePass ):
             raise UpblkCyclicError("update_once blocks are not allowed to appear in a cycle. \n - " + \
                             "\n - ".join( [
                               f"{y.__name__} ({'@update_once' if y in onces else '@update'} " \
-                              f"in 'top.{repr(top.get_update_block_host_component(y))[2:]}')"
+                              f"in 'top.{repr(top.get_update_block_host_component(unwrapped.get(y, y)))[2:]}')"
                               for y in scc] ))
 
         tmp_schedule = []
